@@ -29,6 +29,7 @@ ASSUMPTIONS = [
     'step clock counts Python line events in xlcalculator/ frames, not seconds',
     'budgets are polynomials with slack: depth<=24(|R|+2), steps<=5000+300(|R|+range cells)^2, message<=min(16(L+2)^3, 256(L+2)^2)+4*text+512',
     'IF(TRUE,x,y): a cycle or failure reachable only through the unselected branch may or may not be reported (both accepted)',
+    'an acyclic chain deeper than the interpreter stack allows (deep_chain: 130-700 cells, or evaluate() called from 400-930 frames down) may fail; the failure must not be reported as a cycle',
 ]
 PROBE_CELLS = {'Sheet1!ZZ1': 5, 'Sheet1!ZZ2': '=ZZ1+1'}
 SAFETY_STEPS = 3_000_000
